@@ -41,12 +41,21 @@ def count(run, name):
     return zint(c)
 
 
+def _inplace(dom, p):
+    """C05 quantifies over ALL objectives: the user's objective / gradient may work in place on the array it receives
+    (x *= a; x -= b; return ...).  After the call the content of that array is unknown."""
+    if isinstance(p, Arr):
+        dom.run.heap[p.ref] = dom.run.fresh("after_user_call", Vec)
+
+
 def user_F(dom, fn, args, kw):
     if len(args) != 1 or kw:
         raise Unsupported("objective called with extra arguments (args=() in every verified configuration)")
     p = args[0]
     dom.run.log.append(("eval_point", "fun", dom.run.heap[p.ref], p.ref, dom.run.site))
-    return Sym(F(vec_of(dom, p)))
+    out = Sym(F(vec_of(dom, p)))
+    _inplace(dom, p)
+    return out
 
 
 def user_G(dom, fn, args, kw):
@@ -56,6 +65,7 @@ def user_G(dom, fn, args, kw):
     dom.run.log.append(("eval_point", "jac", dom.run.heap[p.ref], p.ref, dom.run.site))
     a = dom.run.alloc(Gr(vec_of(dom, p)), "user_result")
     dom.run.tags[a.ref] = "array returned by the user's gradient"
+    _inplace(dom, p)
     return a
 
 
